@@ -2,6 +2,7 @@
 import z3
 from pyvc.driver import Unit, check_property
 from pyvc.values import *
+from pyvc.interp import RaiseEx
 
 Dist = Leaf
 is_distrax = z3.Function("is_distrax", Leaf, BOOL)
@@ -248,5 +249,76 @@ class PhaseHistory(Unit):
 UNITS = [SetDelay("Connection"), SetDelay("BaseNode"), Phase(), InfoRoundTrip(), PhaseHistory()]
 
 
+
+class AlgebraicLoop(Unit):
+    """an un-skipped cycle is reported as an algebraic loop (RecursionError naming the loop); skipping one connection of the cycle breaks it"""
+    name = "BaseNode.phase on a cycle"
+    target = "rex/node.py::BaseNode.phase"
+    props = ("C16",)
+
+    def configs(self):
+        for L in (1, 2, 3):
+            yield f"cycle of {L}, no connection skipped", dict(L=L, skipped=None)
+            yield f"cycle of {L}, one connection skipped", dict(L=L, skipped=L - 1)
+        yield "cycle of 2 plus an acyclic input", dict(L=2, skipped=None, extra=True)
+
+    def opts(self, cfg):
+        return {"reentry_raises": True}
+
+    def run(self, ctx):
+        ex, cfg = ctx.ex, ctx.cfg
+        L = cfg["L"]
+        ns = [mk_node(f"n{i}") for i in range(L)]
+        cs = []
+        for i in range(L):      # n_i -> n_{i+1 mod L}
+            c = mk_conn(ns[(i + 1) % L], ns[i], f"from_n{i}", f"c{i}")
+            c.f["skip"] = (cfg["skipped"] == i)
+            ctx.require(z3.And(ns[i].f["delay"] >= 0, c.f["delay"] >= 0))
+            cs.append(c)
+        if cfg.get("extra"):
+            src = mk_node("src", with_phase=z3.Real("src.phase"))
+            ctx.require(z3.And(src.f["phase"] >= 0, src.f["delay"] >= 0))
+            ce = mk_conn(ns[0], src, "from_src", "ce")
+            ce.f["skip"] = False
+            ctx.require(ce.f["delay"] >= 0)
+        try:
+            ph = ex.getattr(ns[0], "phase")
+            raised = None
+        except RaiseEx as e:
+            raised, ph = e, None
+        if cfg["skipped"] is None:
+            ctx.ensure("C16 an un-skipped cycle is reported: reading the phase raises RecursionError", z3.BoolVal(raised is not None and raised.exc == "RecursionError"))
+            if raised is not None:
+                msg = raised.msg if isinstance(raised.msg, str) else ""
+                ctx.ensure("C16 ... whose message says 'Algebraic loop detected' and names the nodes of the loop", z3.BoolVal("Algebraic loop detected" in msg and all(n.f["name"] in msg for n in ns)))
+        else:
+            ctx.ensure("C16 with one connection of the cycle skipped there is no algebraic loop: the phase is computed", z3.BoolVal(raised is None))
+            if raised is None:
+                # n0 <- n_{L-1} is skipped, so n0 is a source of the remaining chain
+                ctx.ensure("C16 ... and equals the longest path over the non-skipped connections (0 for the node behind the skipped connection)", toz(ph) == 0)
+                if L >= 2:
+                    p1 = toz(ex.getattr(ns[1], "phase"))
+                    ctx.ensure("C16 ... next node of the chain: sender phase + sender delay + connection delay", p1 == ns[0].f["delay"] + cs[0].f["delay"])
+
+
+UNITS.append(AlgebraicLoop())
+
+
 def check(tier, seed):
-    return check_property("C16", UNITS, tier, seed)
+    from pyvc import bounded
+    n = 60 if tier == "quick" else 600
+    res = bounded.run_native("c16_phases.py", ["--n", str(n), "--seed", str(seed)])
+    lines, ev, err = bounded.report("C16", "phases and algebraic loops on whole topologies", res, "c16_phases.py")
+    extra = dict(bounded=[dict(ev, bound=f"{n} random directed graphs (1-5 real nodes, random skip flags, self loops, one set_delay): a node behind an un-skipped cycle raises RecursionError "
+                                         "'Algebraic loop detected', every other phase = longest expected-delay path (own DFS oracle), before and after the set_delay")],
+                 assumptions=["unbounded recursion of the pure phase property ends in CPython's RecursionError (recursion rule of the executor; confirmed natively by the bounded stand-in)",
+                              "on a DAG the Bellman equation's unique solution is the longest path (induction, written; cross-checked by the bounded stand-in)"])
+    code = check_property("C16", UNITS, tier, seed, extra=extra)
+    if lines:
+        for l in lines:
+            print(l)
+        return 1
+    if err and code == 0:
+        print(f"ERROR property=C16 bounded stand-in failed to run: {err[-300:]}")
+        return 3
+    return code
